@@ -416,6 +416,10 @@ def execute(wl: Dict[str, Any], policy: S.Policy, step_cap: int = 20_000_000) ->
             slots: List[Optional[Tuple[int, int]]] = []
             for k, op in enumerate(ops):
                 where = f"T{t}.op{k}"
+                if sys.gettrace() is None:
+                    # a RecursionError raised inside the trace function switches tracing off for this thread
+                    sys.settrace(sc._global_trace)
+                    count("probe:trace-reinstalled")
                 if op[0] == "nop":
                     if op[1]:
                         slots.append(None)
